@@ -708,5 +708,9 @@ func (en *DefaultEngine) reset(ctx context.Context) (bool, error) {
 	en.st.Restart()
 	en.st.ResetFlag(state.FLAG_TERMINATE)
 	en.st.ResetFlag(state.FLAG_DIRTY)
+	// Restart refuses the stack that has just been emptied, so what it would have reset of
+	// the input handling is reset here: the next session has not read any input yet
+	en.st.ResetFlag(state.FLAG_READIN)
+	en.st.ResetFlag(state.FLAG_INMATCH)
 	return false, nil
 }
